@@ -40,29 +40,42 @@ def plan(tier):
         ctrip = list(trip)
     gen = []
     uses_map = lambda ts: any(t in (16, 17, 18) for t in ts)
+    FLOATY = (2, 10, 11, 14, 15, 18)
 
-    def emit(fn, call, ts):
-        attrs = "#[kani::unwind(6)]\n"
+    def emit(fn, calls, ts):
+        attrs = "#[kani::unwind(42)]\n"
         if uses_map(ts):
             attrs += "#[kani::stub(std::hash::RandomState::new, vk_fixed_random_state)]\n"
-        gen.append("vk_proof! {\n%sfn %s() { %s }\n}\n" % (attrs, fn, call))
+        gen.append("vk_proof! {\n%sfn %s() { %s }\n}\n" % (attrs, fn, " ".join(calls)))
 
-    for a in unary:
-        fn = "c10_unary_%d" % a
-        emit(fn, "unary_laws(%d);" % a, (a,))
-        p.add(MOD, H(fn, {"law": "reflexivity", "tags": [TAGS[a]]}, "unary"))
-    for a, b in pairs:
-        fn = "c10_pair_%d_%d" % (a, b)
-        emit(fn, "pair_laws(%d, %d);" % (a, b), (a, b))
-        p.add(MOD, H(fn, {"law": "antisymmetry+Eq+Hash+cypher_order", "tags": [TAGS[a], TAGS[b]]}, "pair"))
-    for a, b, c in trip:
-        fn = "c10_tro_%d_%d_%d" % (a, b, c)
-        emit(fn, "triple_ord(%d, %d, %d);" % (a, b, c), (a, b, c))
-        p.add(MOD, H(fn, {"law": "Ord transitivity", "tags": [TAGS[a], TAGS[b], TAGS[c]]}, "triple_ord"))
-    for a, b, c in ctrip:
-        fn = "c10_trc_%d_%d_%d" % (a, b, c)
-        emit(fn, "triple_cypher(%d, %d, %d);" % (a, b, c), (a, b, c))
-        p.add(MOD, H(fn, {"law": "cypher_order transitivity", "tags": [TAGS[a], TAGS[b], TAGS[c]]}, "triple_cypher"))
+    def family(prefix, fam, law, items, call, group):
+        """items: list of tag tuples; `group` shapes share one harness (the per-harness fixed cost of
+        goto-instrument on this crate is ~8 s, far more than the solver needs per shape)."""
+        # keep map shapes apart (they need the RandomState stub and are slower)
+        plain = [t for t in items if not uses_map(t)]
+        maps = [t for t in items if uses_map(t)]
+        n = 0
+        for part, g in ((plain, group), (maps, 2)):
+            for i in range(0, len(part), g):
+                chunk = part[i:i + g]
+                fn = "%s_%d" % (prefix, n)
+                n += 1
+                emit(fn, [call(t) for t in chunk], [x for t in chunk for x in t])
+                p.add(MOD, H(fn, {"law": law, "tag_tuples": [[TAGS[x] for x in t] for t in chunk]}, fam))
+
+    family("c10_unary", "unary", "reflexivity of cmp / == / cypher_order", [(a,) for a in unary],
+           lambda t: "unary_laws(%d, false);" % t, 8)
+    family("c10_nan_unary", "nan_region", "Eq reflexive where some float payload is NaN",
+           [(a,) for a in unary if a in FLOATY], lambda t: "unary_laws(%d, true);" % t, 8)
+    family("c10_pair", "pair", "antisymmetry, Ord<->Eq agreement, Eq=>same hash stream, cypher_order antisymmetry",
+           pairs, lambda t: "pair_laws(%d, %d, false);" % t, 6)
+    family("c10_nan_pair", "nan_region", "Ord agrees with Eq where some float payload is NaN",
+           [(a, b) for a, b in pairs if a in FLOATY and b in FLOATY and BUCKET[a] == BUCKET[b]],
+           lambda t: "pair_laws(%d, %d, true);" % t, 6)
+    family("c10_tro", "triple_ord", "Ord transitivity (<= and <)", trip,
+           lambda t: "triple_ord(%d, %d, %d);" % t, 5)
+    family("c10_trc", "triple_cypher", "cypher_order transitivity (<= and <)", ctrip,
+           lambda t: "triple_cypher(%d, %d, %d);" % t, 5)
     p.gen["c10_gen.rs"] = "".join(gen)
     p.functions = ["<PropertyValue as Ord>::cmp", "<PropertyValue as PartialOrd>::partial_cmp",
                    "<PropertyValue as PartialEq>::eq", "<PropertyValue as Hash>::hash",
@@ -76,7 +89,7 @@ def plan(tier):
         "drop glue skipped (mem::forget)",
     ]
     p.bound = ("tags %s; strings <=2 ASCII bytes, vectors <=2, arrays <=2 scalar elements (+1 nested), maps <=1 key; "
-               "unwind 6 with unwinding assertions" % sorted(set(TAGS[t] for t in pair_tags)))
+               "unwind 42 with unwinding assertions" % sorted(set(TAGS[t] for t in pair_tags)))
     p.not_covered = "containers nested deeper than 2, longer strings/arrays/maps, non-ASCII strings"
     p.per_harness_timeout = 240
     return p
